@@ -748,7 +748,18 @@ func vfMetaStoreScript(ctx context.Context, sw *vfStoreWorld, sc vfScript) []map
 		sh := sop.GetEntry().GetHash()
 		em := sw.collect(h, sh, e, tm.Ty)
 		post, devs, admins := vfSnapshot(sw.ms)
-		ev := map[string]any{"ev": "append", "i": i, "store": sw.name, "tm": st.A, "helper": e.helper,
+		// the history listing served to late subscribers goes through the same opening function
+		inList := false
+		if ch, err := sw.ms.ListEvents(ctx, nil, nil, false); err == nil {
+			for le := range ch {
+				if bytes.Equal(le.GetEventContext().GetId(), h.Bytes()) {
+					inList = true
+				}
+			}
+		} else {
+			vfInfra(" ListEvents: %v", err)
+		}
+		ev := map[string]any{"ev": "append", "listed": inList, "i": i, "store": sw.name, "tm": st.A, "helper": e.helper,
 			"emr": em.emr, "gme": em.gme, "tyok": em.tyok, "sameok": em.sameok, "stray": em.stray, "barrier": em.barrier,
 			"pre": pre, "post": post, "grew": sw.ms.OpLog().Len() - lenPre, "st": sw.project(devs, admins)}
 		out = append(out, ev)
